@@ -120,6 +120,8 @@ impl WorkerTree {
             .count();
 
         if total_not_done == 0 {
+            // sources may have been removed since the last pass: their outputs still need to go
+            self.clean_files(resources);
             return Ok(());
         }
 
